@@ -32,7 +32,7 @@ def classify(case_line):
 CFG = dict(
     imports=["From Verif.C27 Require Import Model Spec.", "From VerifGen Require Import Gen.", "Open Scope N_scope.", "Open Scope string_scope."],
     checker="(check_case genv)",
-    n=dict(quick=240, thorough=6000),
+    n=dict(quick=200, thorough=6000),
     shard=dict(quick=20, thorough=100),
     rule="histories of Config.UpdateFrom calls on a fresh Config (Felix's loading order or a random order, sources "
          "sometimes loaded twice, empty updates, empty values; in 1/5 of the cases followed by an UpdateFromConfigUpdate "
@@ -40,7 +40,10 @@ CFG = dict(
          "combination with valid / invalid / 'none' raw values and case-variant spellings of the names; streams: priority "
          "(1-4 parameters in 1-4 sources each), shadow (flagged parameter valid in a high source and invalid/'none' lower, "
          "and the mirror image), anyparam (any of the 218 parameters with type-agnostic raw values), variant (one source "
-         "spells a parameter in 2-3 ways; run 40 times on fresh maps, every distinct outcome recorded), unknown names; the "
+         "spells a parameter in 2-3 ways; run 40 times on fresh maps, every distinct outcome recorded), unknown names; history (1/4 of the cases: ONE long-lived Config over 3-12 calls of UpdateFrom / OverrideParam / "
+         "UpdateFromConfigUpdate with poisoned updates = a good value plus a fatal one in one source, later emptied or "
+         "repaired; plus 4 fixed corpus histories); after the last call a FRESH Config fed the Config's own ToConfigUpdate() "
+         "message is compared on all 218 parameters and RawValues(); the "
          "real Parse of every (parameter, raw) pair is recorded as the parse oracle; observed: error of every call, Config.Err "
          "after every call, the `changed` result / changedFields of every call whose predecessor succeeded, the "
          "rendered Config fields of the parameters involved (and of some untouched ones), RawValues(); non-trivial = a "
@@ -237,7 +240,7 @@ def run(ctx):
             violations.append((rp, "no-failing-input-found"))
 
     cov = coverage(dict(evaluations=len(cases) + searched, distinct_nontrivial=len(nontrivial), distinct=len(keys),
-                        samples=[c.get("sample") for c in cases[7:10]],
+                        samples=[c.get("sample") for c in cases[11:14]],
                         traces_validated_against_impl=len(cases) + searched,
                         disagreements_model_vs_impl=len(disagree), oracle_failures=len(oracle_fail), oracle_failures_by_class=counts,
                         input_distribution=vlib.distribution(lines), driver_stats=stats))
@@ -263,7 +266,7 @@ def replay(ctx, path):
     print("sample:", json.dumps(case.get("sample"))[:3000])
     failing, _ = vlib.coq_eval_cases(ctx, CFG["imports"], CFG["checker"], [case["coq"]], extra_q=gq)
     print("recorded observations -> %s" % ("agree=true ok=true" if not failing else "agree=%s ok=%s" % (failing[0][1], failing[0][2])))
-    lines = vlib.run_driver(ctx, exe, ["-n", 7, "-seed", 1])
+    lines = vlib.run_driver(ctx, exe, ["-n", 11, "-seed", 1])
     cur = [l for l in lines if l.get("key") == case.get("key")]
     if cur:
         failing, _ = vlib.coq_eval_cases(ctx, CFG["imports"], CFG["checker"], [cur[0]["coq"]], extra_q=gq)
